@@ -424,6 +424,23 @@ func (c *FuncCtx) wfTerm(v Term, t types.Type) Term {
 		}
 	case *types.Interface:
 		return mk(SBool, ">=", ifTag(v), Term{"0", SInt})
+	case *types.Struct:
+		if c.wfDepth > 3 {
+			return tTrue
+		}
+		c.wfDepth++
+		defer func() { c.wfDepth-- }()
+		var parts []Term
+		for i := 0; i < u.NumFields(); i++ {
+			ft := u.Field(i).Type()
+			switch ft.Underlying().(type) {
+			case *types.Slice, *types.Basic, *types.Interface, *types.Struct:
+				if w := c.wfTerm(c.fieldSel(v, t, i), ft); w.S != "true" {
+					parts = append(parts, w)
+				}
+			}
+		}
+		return and(parts...)
 	}
 	return tTrue
 }
